@@ -4,7 +4,7 @@ import vf
 
 PROP = "C19"
 THEOREMS = ["new_canonical", "new_idempotent", "canonical_classes", "canonical_fixed_points", "ops_closed",
-            "sin_odd_any_rounding", "cos_even", "sin_odd", "new_matches_adder", "codec_canonicalize_agrees", "sin_table_facts",
+            "sin_odd_any_rounding", "cos_even", "sin_odd", "new_matches_adder", "sin_table_facts",
             "q32_total", "q32_saturates", "q32_mul_nearest", "q32_div_nearest", "q32_to_f32_canonical",
             "prng_next_int_range", "prng_never_zero_state", "from_axis_angle_total_refuted",
             "sin_cos_range", "sin_cos_is_signed_interp", "sin_interp_segment_range"]
